@@ -185,35 +185,38 @@ Section Model.
     end.
   Definition load (m : mem) (a bits : Z) : res (option V) := load_f 2 m a bits.
 
-  (* Memory::store.  An `Err` raised after the first re-homing would leave the Rust memory
-     partially updated; the model returns the error only (no such error exists under the
-     invariant: store_ok). *)
+  (* Memory::store (as repaired: the end of the write and the two `backref_furthest_address` are
+     computed in u128, so a write may end exactly at 2^64 -- there is then no cell after it and the
+     tail phase is skipped -- and a write reaching beyond 2^64 is an error, not a panic).
+     u128 sums cannot overflow here; the u128 subtractions are checked; `as usize` truncates.
+     An `Err` raised after the first re-homing would leave the Rust memory partially updated; the
+     model returns the error only (no such error exists under the invariant: store_ok). *)
   Definition store (m : mem) (a : Z) (v : V) : res mem :=
     let bits := v_bits W v in
     if negb (bits mod 8 =? 0) || (bits =? 0) then Err ECustom else
-    after <- uadd a (bits / 8) ;;
-    vtw <- match load_cell m after with
-           | Some (CRef b) =>
-               match load_cell m b with
-               | None => Err ECustom
-               | Some (CRef _) => Err ECustom
-               | Some (CVal bv) =>
-                   far <- uadd b (v_bits W bv / 8) ;;
-                   d <- usub far after ;;
-                   lb <- umul d 8 ;;
-                   load m after lb
-               end
-           | _ => Ok None
-           end ;;
-    m1 <- match vtw with Some w => store_no_backref m after w | None => Ok m end ;;
+    let endw := a + bits / 8 in
+    if USIZE <? endw then Err ECustom else
+    vtw <- (if endw =? USIZE then Ok None else
+            match load_cell m endw with
+            | Some (CRef b) =>
+                match load_cell m b with
+                | None => Err ECustom
+                | Some (CRef _) => Err ECustom
+                | Some (CVal bv) =>
+                    let far := b + v_bits W bv / 8 in
+                    d <- usub far endw ;;
+                    load m endw ((d * 8) mod USIZE)
+                end
+            | _ => Ok None
+            end) ;;
+    m1 <- match vtw with Some w => store_no_backref m endw w | None => Ok m end ;;
     vtw2 <- match load_cell m1 a with
             | Some (CRef b) =>
                 c <- res_of_option (load_cell m1 b) ;;
                 bv <- match c with CVal bv => Ok bv | CRef _ => Panic end ;;
-                far <- uadd b (v_bits W bv / 8) ;;
+                let far := b + v_bits W bv / 8 in
                 d <- usub far a ;;
-                ob <- umul d 8 ;;
-                lb <- usub (v_bits W bv) ob ;;
+                lb <- usub (v_bits W bv) ((d * 8) mod USIZE) ;;
                 r <- load m1 b lb ;;
                 Ok (Some (b, r))
             | _ => Ok None
